@@ -224,6 +224,9 @@ func IteByte(c bool, a, b byte) byte {
 	return b
 }
 
+// Fork returns c; under the engine the path forks on c (never if-converted), so the result is concrete.
+func Fork(c bool) bool { return c }
+
 // Symbolic reports whether the harness runs under the symbolic engine with symbolic draws.
 func Symbolic() bool { return false }
 
